@@ -376,3 +376,65 @@ def comments_check(repo, tier, seed):
             'coverage': {'bounded': {'function': 'asn1tools/parser.py::ignore_comments', 'strings_enumerated': res['total'],
                                      'strings_with_a_comment_or_change': res['nontrivial'], 'max_length': maxlen,
                                      'alphabet': alphabet, 'exhaustive_below_bound': True, 'counted_as_proved': False}}}
+
+
+# ------------------------------------------------------------------------------------------------------------
+def module_threading_check(repo, tier, seed):
+    """C19/C13 (reduced): reference congruence needs every part of a looked-up descriptor to be interpreted in the module
+    it was found in.  Data-flow obligations over codecs/compiler.py::Compiler: for every
+        D, M = self.lookup_*(name, M0)
+    each later call in the same function that passes (something derived from) D together with a module argument must pass
+    M -- the module returned with D -- and M must not be discarded when D is dereferenced again."""
+    import ast
+    from .program import Program
+    prog = Program(repo)
+    m = prog.module_by_relpath('asn1tools/codecs/compiler.py')
+    cls = m.classes['Compiler']
+    obs, viol, funcs = [], [], []
+    for f in cls.methods.values():
+        pairs = []           # (D name, M name, lineno)
+        for n in ast.walk(f.node):
+            if isinstance(n, ast.Assign) and isinstance(n.targets[0], ast.Tuple) and len(n.targets[0].elts) == 2 \
+                    and isinstance(n.value, ast.Call) and isinstance(n.value.func, ast.Attribute) \
+                    and n.value.func.attr.startswith('lookup_') and all(isinstance(e, ast.Name) for e in n.targets[0].elts):
+                d, mm = n.targets[0].elts[0].id, n.targets[0].elts[1].id
+                m0 = [a.id for a in n.value.args if isinstance(a, ast.Name) and 'module' in a.id]
+                pairs.append((d, mm, n.lineno, m0[0] if m0 else None, n))
+        if not pairs:
+            continue
+        derived = {}
+        for d, mm, ln, m0, node in pairs:
+            derived.setdefault(d, {d})
+        for _ in range(3):
+            for n in ast.walk(f.node):
+                if isinstance(n, ast.Assign) and isinstance(n.targets[0], ast.Name):
+                    for d in derived:
+                        if any(isinstance(x, ast.Name) and x.id in derived[d] for x in ast.walk(n.value)):
+                            derived[d].add(n.targets[0].id)
+        nf = 0
+        for d, mm, ln, m0, node in pairs:
+            for c in ast.walk(f.node):
+                if not isinstance(c, ast.Call) or c is node.value:
+                    continue
+                if isinstance(c.func, ast.Attribute) and c.func.attr == 'format':
+                    continue             # error message text
+                args = list(c.args) + [k.value for k in c.keywords]
+                uses_d = any(isinstance(x, ast.Name) and x.id in derived[d] for a in args for x in ast.walk(a))
+                mod_args = [a.id for a in args if isinstance(a, ast.Name) and 'module' in a.id]
+                if uses_d and mod_args:
+                    ok = all(a == mm for a in mod_args) and mm != '_'
+                    name = '%s/module-threading@%d' % (f.ident, c.lineno)
+                    obs.append((name, ok))
+                    nf += 1
+                    if not ok:
+                        viol.append({'obligation': name, 'function': f.ident, 'verdict': 'data-flow obligation failed',
+                                     'solver_output': 'line %d: `%s` passes module %s with data of descriptor `%s`, which was found in module `%s` '
+                                                      '(returned by the lookup at line %d)' % (c.lineno, ast.unparse(c)[:80], mod_args, d, mm, ln),
+                                     'inputs': None})
+        funcs.append({'function': f.ident, 'source_sha256': f.sha, 'paths': 1, 'obligations': nf,
+                      'discharged': sum(1 for o in obs[-nf:] if o[1]) if nf else 0, 'outcomes': {}, 'seconds': 0.0, 'inlined_callees': []})
+    return {'name': 'module threading data-flow', 'obligations': len(obs), 'discharged': sum(1 for o in obs if o[1]),
+            'violations': viol, 'functions': funcs,
+            'undecided': [] if len(obs) >= 3 else [{'function': 'asn1tools/codecs/compiler.py::Compiler', 'kind': 'vacuous',
+                                                    'reason': 'fewer than 3 lookup/use pairs found'}],
+            'coverage': {'obligations': [o[0] for o in obs]}}
